@@ -858,3 +858,23 @@ def collection_variants(items, alloc_cls=None, one_shot=True):
     if alloc_cls is not None:
         out.append(("BudgetAllocation", lambda: alloc_cls(items)))
     return out
+
+
+INIT_TYPES = ["list", "list", "list", "tuple", "set", "BudgetAllocation", "generator", "iter", "map", "dict_keys", "frozenset", "filter"]
+
+
+def pick_init_type(seed, k):
+    """the argument type of an initial allocation: a deterministic function of the case (so that a replay hands over the same kind)"""
+    return INIT_TYPES[(int(seed) * 2654435761 + 97 * int(k)) % 4294967296 % len(INIT_TYPES)]
+
+
+def shape_init(items, kind):
+    """the initial allocation `items` (a list of projects) as the argument type `kind`; one-shot iterables are built afresh"""
+    items = list(items)
+    if kind == "BudgetAllocation":
+        from pabutools.rules import BudgetAllocation
+
+        return BudgetAllocation(items)
+    return {"list": lambda: list(items), "tuple": lambda: tuple(items), "set": lambda: set(items), "frozenset": lambda: frozenset(items),
+            "generator": lambda: (p for p in items), "iter": lambda: iter(items), "map": lambda: map(lambda p: p, items),
+            "filter": lambda: filter(lambda p: True, items), "dict_keys": lambda: dict.fromkeys(items).keys()}[kind]()
